@@ -14,16 +14,12 @@ Section Commit.
   Notation store := (store_redownloaded permitted proof_of p).
   Notation store_all := (store_all_redownloaded permitted proof_of p).
 
-  (* the commitment bits of a run of headers whose predecessor has height h0 *)
-  Fixpoint cv (h0 : Z) (l : list hdr) : list bool :=
-    match l with
-    | [] => []
-    | x :: t => (if is_commitment_height p (h0 + 1) then [h_cbit x] else []) ++ cv (h0 + 1) t
-    end.
+  (* cv: the commitment bits of a run of headers whose predecessor has height h0 (model/HeadersSync.v) *)
+  Notation cv := (HeadersSync.cv p).
 
   Lemma cv_app : forall a h0 b, cv h0 (a ++ b) = cv h0 a ++ cv (h0 + zlen a) b.
   Proof.
-    induction a as [|x a IH]; intros h0 b; simpl.
+    induction a as [|x a IH]; intros h0 b; cbn [HeadersSync.cv app].
     - unfold zlen. simpl. now rewrite Z.add_0_r.
     - rewrite IH, <- app_assoc.
       replace (h0 + zlen (x :: a)) with (h0 + 1 + zlen a) by (unfold zlen; simpl length; lia). reflexivity.
@@ -39,7 +35,7 @@ Section Commit.
   Proof.
     unfold HeadersSync.process_single. intros H Hst [R1 R2]. rewrite Hst in H.
     rewrite wrap32_id in H by (unfold INT32_MIN, INT32_MAX in *; lia).
-    destruct (negb (permitted _ _ _)); [discriminate|]. simpl cv. rewrite app_nil_r.
+    destruct (negb (permitted _ _ _)); [discriminate|]. cbn [HeadersSync.cv]. rewrite app_nil_r.
     destruct (is_commitment_height p (s_height s + 1)).
     - cbn [andb] in H. destruct (p_max_commitments p <? _); [discriminate|]. injection H as <-. cbn. auto.
     - cbn [andb] in H. injection H as <-. cbn. now rewrite app_nil_r.
@@ -67,7 +63,7 @@ Section Commit.
       destruct (IH s1 s' H Hst1) as [C D].
       + rewrite B. exact R1.
       + rewrite B. unfold in_range in *. rewrite Hz in R. lia.
-      + rewrite C, A, B. simpl cv. rewrite app_nil_r, <- app_assoc. split; [reflexivity|]. rewrite D, B, Hz. lia.
+      + rewrite C, A, B. cbn [HeadersSync.cv]. rewrite app_nil_r, <- app_assoc. split; [reflexivity|]. rewrite D, B, Hz. lia.
   Qed.
 
   (* ---- second pass ---- *)
@@ -83,7 +79,7 @@ Section Commit.
     set (rwork := wrap256 (s_rwork s + proof_of (h_bits h))) in *.
     set (all := if p_min_work p <=? rwork then true else s_all s) in *.
     assert (Hall : s_all s = true -> all = true) by (intros Ha; unfold all; rewrite Ha; now destruct (_ <=? _)).
-    simpl cv. rewrite app_nil_r.
+    cbn [HeadersSync.cv]. rewrite app_nil_r.
     destruct (negb all && is_commitment_height p (s_rlast_height s + 1)) eqn:Ec.
     - apply andb_true_iff in Ec. destruct Ec as [Ea Ech]. rewrite Ech.
       destruct (s_commitments s) as [|expected remaining]; [discriminate|].
@@ -110,7 +106,7 @@ Section Commit.
       + rewrite A. unfold in_range in *. rewrite Hz in R. lia.
       + split; [rewrite A', A, Hz; lia|]. split; [auto|].
         intros Ha. assert (Ha1 : s_all s1 = false) by (destruct (s_all s1) eqn:X; [rewrite (B' eq_refl) in Ha; discriminate | reflexivity]).
-        rewrite (C Ha1), (C' Ha). simpl cv. rewrite app_nil_r, A, <- app_assoc. reflexivity.
+        rewrite (C Ha1), (C' Ha). cbn [HeadersSync.cv]. rewrite app_nil_r, A, <- app_assoc. reflexivity.
   Qed.
 
   (* ---- histories: the headers accepted in each pass ---- *)
@@ -163,7 +159,7 @@ Section Commit.
       pose proof (process_all_single_spec permitted proof_of p) as PA. feed PA.
       destruct (PA (h0 :: hs0) s true s2 E2 Est (proj1 (proj1 Hi))) as (Hst2 & _).
       destruct (p_min_work p <=? s_work s2); injection Ev as <-; unfold ghost; cbn [s_state s_commitments s_rlast_height s_height].
-      + split; [|unfold zlen; simpl; lia]. simpl cv. rewrite A, Hc, Hh, cv_app. reflexivity.
+      + split; [|unfold zlen; simpl; lia]. cbn [HeadersSync.cv]. rewrite A, Hc, Hh, cv_app. reflexivity.
       + rewrite Hst2. split; [reflexivity|]. split; [rewrite A, Hc, Hh, cv_app; reflexivity|].
         rewrite B, Hh. unfold zlen. rewrite app_length. lia.
     - (* second pass *)
@@ -225,6 +221,44 @@ Section Commit.
       apply IH; [exact Hi' | exact Hg' | exact R0 |].
       unfold in_range in *. lia.
   Qed.
+
+  (* ---- the executable commitment predicate holds on what the model itself reports ---- *)
+  Lemma bits_prefix_app : forall x y, bits_prefix x (x ++ y) = true.
+  Proof. induction x as [|c x IH]; intros y; simpl; [reflexivity|]. now rewrite Bool.eqb_reflx, IH. Qed.
+
+  (* per call: (success, state after the call) *)
+  Fixpoint model_outs (s : hss) (calls : list (list hdr * bool)) : list (bool * sync_state) :=
+    match calls with
+    | [] => []
+    | (hs, full) :: rest => let '(s', r) := pnh s hs full in (r_success r, s_state s') :: model_outs s' rest
+    end.
+
+  Lemma holds_commit_sound : forall calls s a b, inv2 p s -> ghost s a b ->
+    in_range (p_start_height p) -> in_range (p_start_height p + zlen a + zlen b + total calls) ->
+    holds_commit p (s_state s) a b calls (model_outs s calls) = true.
+  Proof.
+    induction calls as [|[hs full] calls IH]; intros s a b Hi Hg R0 R; [reflexivity|].
+    cbn [model_outs]. destruct (pnh s hs full) as [s' r] eqn:E. cbn [holds_commit].
+    assert (Hza : 0 <= zlen a) by (unfold zlen; lia). assert (Hzb : 0 <= zlen b) by (unfold zlen; lia).
+    assert (Hzh : 0 <= zlen hs) by (unfold zlen; lia).
+    assert (Ht : total ((hs, full) :: calls) = zlen hs + total calls).
+    { unfold total, zlen. simpl. rewrite app_length. lia. }
+    assert (Htc : 0 <= total calls) by (unfold total, zlen; lia).
+    rewrite Ht in R.
+    assert (Hi' : inv2 p s').
+    { pose proof (pnh_inv permitted proof_of p) as X. feed X. specialize (X s hs full Hi). now rewrite E in X. }
+    pose proof (ghost_step s hs full s' r a b E Hi Hg R0
+                  ltac:(unfold in_range in *; lia) ltac:(unfold in_range in *; lia)) as Hg'.
+    change (match s_state s with PRESYNC => true | _ => false end) with (is_presync (s_state s)) in Hg'.
+    change (match s_state s with REDOWNLOAD => true | _ => false end) with (is_redl (s_state s)) in Hg'.
+    match type of Hg' with ghost _ ?x ?y => set (a' := x) in *; set (b' := y) in * end.
+    assert (Hgrow : zlen a' + zlen b' <= zlen a + zlen b + zlen hs /\ 0 <= zlen a' + zlen b').
+    { unfold a', b', zlen. rewrite !app_length. destruct (r_success r), (s_state s); simpl length; lia. }
+    apply andb_true_iff. split.
+    - destruct (s_state s') eqn:Es'; cbn [is_redl]; try reflexivity.
+      unfold ghost in Hg'. rewrite Es' in Hg'. destruct Hg' as [Hc _]. rewrite Hc. apply bits_prefix_app.
+    - apply IH; [exact Hi' | exact Hg' | exact R0 |]. unfold in_range in *. lia.
+  Qed.
 End Commit.
 
 (* statement used by props/Properties_C33.v *)
@@ -245,4 +279,18 @@ Proof.
   assert (R0 : in_range (p_start_height p)) by (unfold in_range; lia).
   assert (R : in_range (p_start_height p + zlen (@nil hdr) + zlen (@nil hdr) + total calls)) by (unfold in_range, zlen; simpl; lia).
   specialize (X R0 R). unfold ghost in X. rewrite Hst in X. simpl app in X. tauto.
+Qed.
+
+Lemma hs_holds_commitments_sound permitted proof_of p : 0 <= p_max_commitments p -> 0 <= p_buffer p ->
+  forall calls, holds_commitments p calls (model_outs permitted proof_of p (hs_init p) calls) = true.
+Proof.
+  intros Hm Hb calls. unfold holds_commitments.
+  destruct ((0 <=? p_start_height p) && (p_start_height p + Z.of_nat (length (concat (map fst calls))) <=? INT32_MAX)) eqn:Er;
+    [|reflexivity].
+  apply andb_true_iff in Er. destruct Er as [E0 E1]. apply Z.leb_le in E0, E1.
+  pose proof (holds_commit_sound permitted proof_of p) as X. feed X.
+  assert (Hi : inv2 p (hs_init p)) by (eapply inv2_init; eauto).
+  assert (Hg : ghost p (hs_init p) [] []).
+  { unfold ghost, hs_init, zlen. simpl. repeat split; lia. }
+  apply (X calls (hs_init p) [] [] Hi Hg); unfold in_range, total, zlen; simpl; lia.
 Qed.
